@@ -124,7 +124,7 @@ def make_contract(callbacks=0, extra_inv=(), extra_post=(), extra_req=(), status
             # ends at the target (loop exit), unless a callback set the step to zero
             "implies(abs(tf_ - old(self.__t)[old(self.counter)]) >= eps, abs(tf_ - self.__t[self.counter]) < 8 * eps or self.__dt == 0)",
             # a call made when already at the target changes nothing
-            "implies(abs(tf_ - old(self.__t)[old(self.counter)]) < eps, self.counter == old(self.counter) and self.__dt == old(self.__dt))",
+            "implies(abs(tf_ - old(self.__t)[old(self.counter)]) < eps, self.counter == old(self.counter) and self.__dt == old(self.__dt) and same(self.__int_status, old(self.__int_status)))",
         ] + ([] if drop_status_post else ["implies(abs(tf_ - old(self.__t)[old(self.counter)]) >= eps, self.__int_status == 1)"]) + list(extra_post),
         ensures_exc=POST_COMMON + [
             "is_exc(exc, 'FailedIntegration') or is_exc(exc, 'KeyboardInterrupt')",
